@@ -1256,6 +1256,7 @@ class FileSet:
         if not self._sub_dir:
             return search_dirs
 
+        sub_dir = ""
         for subdir_chunk in self._sub_dir_chunks:
             # Sometimes there is a sub directory part that has no
             # regex/placeholders:
@@ -1272,13 +1273,14 @@ class FileSet:
                 continue
 
             # The sub directory covers a certain time coverage, we make
-            # sure that it is included into the search range.
-            start_check = set_time_resolution(
-                start, self._get_time_resolution(subdir_chunk)[0]
-            )
-            end_check = set_time_resolution(
-                end, self._get_time_resolution(subdir_chunk)[0]
-            )
+            # sure that it is included into the search range. The placeholders
+            # of all upper levels are checked together with the ones of this
+            # level, hence the finest resolution down to this level counts
+            # (this level may have no temporal placeholder at all):
+            sub_dir = posixpath.join(sub_dir, subdir_chunk)
+            resolution = self._get_time_resolution(sub_dir)[0]
+            start_check = set_time_resolution(start, resolution)
+            end_check = set_time_resolution(end, resolution)
 
             # compile the regex for this sub directory:
             regex = self._fill_placeholders(
